@@ -44,6 +44,13 @@ if [ "$ID" = C14 ] || [ "$ID" = C15 ]; then
   fi
   export VERIF_RACE_BIN="$W/vrace"
 fi
+if [ "$ID" = C04 ]; then
+  # the same digest program for the host and for a 32-bit platform: draws depend on the bits only, not on the word size
+  if go build $MODFLAG -tags verif -overlay "$W/overlay.json" -o "$W/platdigest" ./harness/cmd/platdigest 2>"$W/build.err" &&
+     GOARCH=386 go build $MODFLAG -tags verif -overlay "$W/overlay.json" -o "$W/platdigest386" ./harness/cmd/platdigest 2>>"$W/build.err"; then
+    export VERIF_PLAT_BIN="$W/platdigest" VERIF_PLAT386_BIN="$W/platdigest386"
+  fi
+fi
 if [ "$ID" = C13 ] || [ "$ID" = C09 ]; then
   # the exported MakeFuzz wrapper needs a real *testing.T: a go test binary runs it, unit "C13/MakeFuzz-wrapper" compares
   if ! go test $MODFLAG -c -vet=off -tags verif -overlay "$W/overlay.json" -o "$W/fuzzwrap.test" ./harness/fuzzwrap 2>"$W/build.err"; then
